@@ -339,6 +339,30 @@ def rule_fresh(c, prog):
                 else:
                     c.violation(R, f"{core.short(path)}|referent", f"{path} builds an InstanceBuilder whose referent is `{core.fingerprint(e, 3)}`, not a fresh Ref::new() (or a referent supplied by the caller): instances inserted from such builders share a referent — the second insert overwrites the first in the instance map and the parent lists the same Ref twice", core.loc(x), instance=inst)
     c.floor(R, n, 2, "InstanceBuilder constructors")
+    # ... and Ref::new() itself is fresh against every other call in the process, whichever thread makes it: DOMs are
+    # Send, instances move between DOMs (transfer, clone_into_external) and both key their maps by Ref.  A value made
+    # from per-thread state alone (a thread_local counter, even under a process-wide random prefix) repeats on
+    # another thread.  Accepted sources: randomness drawn on every call, or an atomic read-modify-write on a static.
+    rn = prog.fns.get("rbx_types::referent::Ref::new")
+    if rn is None or rn.body is None:
+        raise core.AnchorMissing("rbx_types::referent::Ref::new")
+    nodes = list(common_walk_inline(prog, rn.body, "rbx_types::referent", 2))
+    per_call_random = [x for x in nodes if x.get("k") in ("Call", "MethodCall") and re.search(r"^rand::random$|rand::rng::Rng::(gen|random)$|^rand::Rng::(gen|random)$|getrandom::|uuid::Uuid::new_v4$|Rng>?::r#?gen$", core.callee(x) or "")]
+    atomic_rmw = [x for x in nodes if x.get("k") == "MethodCall" and x["m"] in ("fetch_add", "fetch_sub", "fetch_update", "compare_exchange", "compare_exchange_weak") and "atomic::Atomic" in ((core.strip(x["recv"]).get("ty") or "") + (x["recv"].get("aty") or ""))]
+    tls = [x for x in nodes if "thread::local::LocalKey<" in ((x.get("ty") or "") + (x.get("aty") or ""))]
+    inst = "Ref::new:fresh-across-threads"
+    c.sample({"rule": R, "ref_new": {"per_call_random": len(per_call_random), "atomic_rmw": len(atomic_rmw), "thread_local": len(tls)}})
+    if tls and not per_call_random:
+        c.violation(R, "Ref::new|thread-local-state", "Ref::new builds its value from thread-local state without drawing randomness on every call: two threads hand out the same referents, and moving or cloning an instance into a DOM built on another thread (transfer, clone_into_external — WeakDom is Send) silently overwrites a live instance that has the same Ref", core.loc(tls[0]), instance=inst)
+    elif not per_call_random and not atomic_rmw:
+        c.violation(R, "Ref::new|no-fresh-source", "Ref::new neither draws randomness on every call nor advances an atomic counter: nothing makes two calls return different referents", rn.sp, instance=inst)
+    else:
+        c.ok(R, inst)
+
+
+def common_walk_inline(prog, node, prefix, depth):
+    from . import common
+    return common.walk_inline(prog, node, prefix, depth)
 
 
 # a work list of referents: a queue, or a vector walked with a cursor
